@@ -652,6 +652,17 @@ theorem C08_set_timeout_keeps_other_entries (value : Bytes) (md : HMap) (k : Byt
   rw [HMap.getAll_insert_ne _ _ _ _ hk, HMap.getAll_insert_ne _ _ _ _ hk, HMap.getAll_insert_ne _ _ _ _ hk]
   exact ⟨rfl, rfl⟩
 
+/-- The contract of `MetadataMap::merge`, wherever it is used (OK trailers into response headers,
+response headers into an error status, request trailers into request headers — also for what a
+peer that is not tonic sends): a name of `other` arrives with exactly `other`'s values in order,
+every other name keeps its values; no name gains or loses anything else. -/
+theorem C08_merge_contract (into other : HMap) (k : Bytes) :
+    (HMap.hasKey k other = true → HMap.getAll k (merge into other) = HMap.getAll k other) ∧
+    (HMap.hasKey k other = false → HMap.getAll k (merge into other) = HMap.getAll k into) := by
+  unfold merge
+  rw [HMap.getAll_extend]
+  constructor <;> intro h <;> simp [h]
+
 /-! ## non-vacuity -/
 
 example : Spec.Metadata.isBinName (HMap.name "x-trace-bin") = true ∧ Spec.Metadata.isBinName (HMap.name "x-bin-x") = false ∧
